@@ -1,33 +1,790 @@
-"""C17 - flight helpers (draft)."""
+"""C17 - flight helpers always end on the ground command and track motion faithfully.
+
+Sequential (virtual time) fragment of the property, real arithmetic (float_mode='R': machine floats are treated as
+mathematical reals, so rounding in distance/velocity is not modelled).
+
+How the clauses are decomposed
+------------------------------
+* MotionCommander against the *contract of its set-point thread*: in `mc.*` contracts the commander is built by its real
+  constructor, put in the air and given a recording stub as `_thread` (`c.set`), so that the order of
+  `thread.set_vel_setpoint / thread.get_height / thread.stop`, `time.sleep` and the commander packets
+  (`cf.commander.send_stop_setpoint`, `cf.commander.send_notify_setpoint_stop`) is one observable trace.
+  "Whatever sequence of motion primitives came before" is by induction over the program: every primitive (blocking,
+  start_*, stop; returning or raising) preserves the representation invariant INV = (`_is_flying`, `_thread` is the same
+  thread, `_cf` is the same Crazyflie) and the landing contract assumes nothing but INV (height and thread state are
+  arbitrary).  `mc.session` additionally runs real bounded programs (`__enter__`, primitives, `__exit__`) with the real
+  `_SetPointThread` object (thread body not running), and `mc.flight` one virtual-time interleaving in which the real
+  thread body run() is executed after take-off and inside join() (Thread.join replaced by its contract "returns after
+  run() returned"), so that hover set-points and the stop command appear in one trace.
+* `_SetPointThread` itself (`thread.*` contracts): `set_vel_setpoint/stop/get_height`, and the real `run()` loop executed
+  sequentially on a scripted queue and a scripted clock (every `time.time()` reading is a contract input): one hover
+  set-point per loop iteration, height = base + vertical velocity * elapsed time, nothing sent once the terminate event is
+  read.  "No set-points streamed after the stop command" then follows from: land() calls thread.stop() *before*
+  send_stop_setpoint (mc.land), stop() = put(terminate) + join() (thread.stop), run() returns at the terminate event
+  without sending (thread.run.events*), and the assumed contract of threading.Thread.join (returns after run() returned).
+* PositionHlCommander (`phlc.*`): real object, recording stub for the Crazyflie (`cf.high_level_commander.*`).
+  position == start + sum of displacements is by induction: one contract per public method states the new stored
+  position; `phlc.session` runs bounded real programs (`__enter__`, primitives, `__exit__`) end to end.
+
+Pre-conditions (misuse outside the property): velocities/rates > 0, turn/circle angles >= 0, circle radius > 0 for the
+"no exception" conclusions (the frame/invariant conclusions are proved without them).
+
+Assumptions: float mode R; time.sleep(d) raises ValueError for d < 0 and otherwise only passes time; time.time() is
+non-decreasing; Thread.start/join and the Crazyflie (`cf`) are recording stubs (sequential model, `c.virtual_time()`);
+Queue is a FIFO; the default velocity 0.2 and math.pi are the doubles the code uses - the engine folds products of two
+concrete floats (360.0 * 0.2) in machine arithmetic, so for circles flown with the *default* velocity the identity
+"rate * duration == angle" is stated with a relative tolerance of 1e-12 (exact for every explicit velocity).
+
+Known finding kept visible: `phlc.land`/`no-exception` - PositionHlCommander.land() with the current z below the landing
+height computes a negative duration; time.sleep raises ValueError after hl.land was sent and before hl.stop.
+
+Not covered (outside the technique)
+-----------------------------------
+* real thread interleavings / wall-clock timing (only the sequential runs and the one interleaving of mc.flight): "hover set-points at least every update period" is proved only as
+  "each iteration of run() blocks at most update_period in Queue.get(timeout=update_period) and then sends exactly one
+  hover set-point"; scheduling delays, the duration of send_packet and the race of the commanding thread with the
+  set-point thread (e.g. _hover_setpoint read by get_height while run() replaces it) are not modelled.
+* "no set-points streamed afterwards" under the real thread: relies on the assumed contract of Thread.join (above).
+* time.time() is read twice inside _new_setpoint; the height formula is stated exactly in terms of both readings (the
+  height integrates the velocity exactly when the two readings coincide, see thread.run.events/height-continuity).
+* floating-point rounding (mode R), NaN/inf arguments.
+* programs longer than the stated bound in the session contracts (the inductive per-primitive contracts are unbounded).
+* construction from a SyncCrazyflie, the optional controller parameter of PositionHlCommander (not part of C17).
+"""
 from pyvc.api import contract
 
 MC = 'cflib.positioning.motion_commander'
 PHL = 'cflib.positioning.position_hl_commander'
+MCC = MC + ':MotionCommander'
+SPT = MC + ':_SetPointThread'
+PHC = PHL + ':PositionHlCommander'
+
+CL_END = ('leaving the context (normally or through an exception) or calling land always ends with the stop command sent '
+          '(MotionCommander: followed by the setpoint-priority release) and no setpoints streamed afterwards, whatever '
+          'sequence of motion primitives came before')
+CL_MOVE = ('each blocking primitive commands velocity and duration whose product is the requested displacement in the '
+           'requested direction')
+CL_HOVER = ('while flying, hover setpoints are streamed at least every update period with a height that integrates the '
+            'commanded vertical velocity')
+CL_POS = ('the position reported by the PositionHlCommander equals the start position plus the sum of commanded '
+          'displacements, and every go-to it issues targets that position with duration distance/velocity')
+
+DIRS = {'left': (0, 1, 0), 'right': (0, -1, 0), 'forward': (1, 0, 0), 'back': (-1, 0, 0), 'up': (0, 0, 1), 'down': (0, 0, -1)}
+MC_VELOCITY = 0.2       # documented default velocity of the MotionCommander primitives (m/s)
+MC_RATE = 72.0          # documented default yaw rate (360 degrees in 5 s)
+PI = 3.141592653589793
+
+INV = 'self._is_flying is True and is_same(self._thread, thread) and is_same(self._cf, cf)'
 
 
-def phlc(c):
-    """a PositionHlCommander built by its real constructor, in the air through the real take_off"""
+# =========================================================================== MotionCommander (thread = its contract)
+
+def mc_flying(c):
+    """a MotionCommander from its real constructor, in the air, with a recording stub for the set-point thread whose
+    height is arbitrary"""
     c.virtual_time()
     cf = c.ext('cf', returns={'is_connected': True})
-    for n in ('x0', 'y0', 'zi', 'dv', 'dh', 'lh', 'z0'):
-        c.float(n)
-    c.require('dv > 0')
-    self = c.new(PHL + ':PositionHlCommander', cf, c.get('x0'), c.get('y0'), c.get('zi'), c.get('dv'), c.get('dh'), None, c.get('lh'))
+    c.float('dh')
+    self = c.new(MCC, cf, c.get('dh'))
+    h = c.float('h')
+    thread = c.ext('thread', returns={'get_height': h})
+    c.set(self, '_is_flying', True)
+    c.set(self, '_thread', thread)
     c.let('self', self)
-    c.require('z0 >= 0')
-    c.call((self, 'take_off'), c.get('z0'))
-    c.require('raised is None')
     c.reset_trace()
     return self
 
 
-@contract('C17', 'phlc.go_to', [PHL + ':PositionHlCommander.go_to'], clause='go-to targets position, duration distance/velocity', float_mode='R')
+def called(c, prefix=''):
+    """names of the recorded external calls (concrete on every path), for choosing which post-conditions apply"""
+    return tuple(e[0] for e in c.get('trace') if e[0].startswith(prefix))
+
+
+SET = 'thread.set_vel_setpoint'
+
+
+def velocity_arg(c, name='v', default=MC_VELOCITY):
+    """the optional velocity argument: explicit (symbolic) or left out (documented default)"""
+    if c.choice(name + '_given', [True, False]):
+        return [c.float(name)]
+    c.let(name, default)
+    return []
+
+
+def check_blocking(c, sp, T, ok_when):
+    """post-conditions shared by the blocking primitives: set-point `sp`, sleep `T`, zero set-point - or nothing"""
+    c.ensure('invariant-preserved', INV)
+    c.ensure('no-exception-when-valid', 'implies(%s, raised is None)' % ok_when)
+    c.ensure('only-thread-and-sleep', "all(n in ('thread.set_vel_setpoint', 'time.sleep') for n in calls())")
+    if c.get('raised') is None:
+        c.ensure('nothing-or-start-sleep-stop', "calls() in ((), ('thread.set_vel_setpoint', 'time.sleep', 'thread.set_vel_setpoint'))")
+        if called(c) == (SET, 'time.sleep', SET):
+            c.snapshot('sp', 'trace[0][1]')
+            c.snapshot('T', 'trace[1][1][0]')
+            c.ensure('plain-positional-calls', 'len(trace[0][1]) == 4 and len(trace[0][2]) == 0 and len(trace[1][1]) == 1 and len(trace[2][2]) == 0')
+            c.ensure('setpoint', sp)
+            c.ensure('duration', T)
+            c.ensure('ends-hovering', 'trace[2][1] == (0.0, 0.0, 0.0, 0.0)')
+
+
+def _mc_move(prim):
+    @contract('C17', 'mc.' + prim, [MCC + '.' + prim, MCC + '.move_distance', MCC + '.start_linear_motion', MCC + '.stop',
+                                    MCC + '._set_vel_setpoint'], clause=CL_MOVE, float_mode='R')
+    def k(c):
+        self = mc_flying(c)
+        if prim == 'move_distance':
+            args = [c.float('dx'), c.float('dy'), c.float('dz')]
+        else:
+            d = c.float('d')
+            sx, sy, sz = DIRS[prim]
+            c.let('sx', sx), c.let('sy', sy), c.let('sz', sz)
+            c.snapshot('dx', 'sx * d'), c.snapshot('dy', 'sy * d'), c.snapshot('dz', 'sz * d')
+            args = [d]
+        args += velocity_arg(c)
+        c.call((self, prim), *args)
+        c.snapshot('dist2', 'dx * dx + dy * dy + dz * dz')
+        check_blocking(c, 'sp[0] * T == dx and sp[1] * T == dy and sp[2] * T == dz and sp[3] == 0',
+                       'T >= 0 and (T * v) * (T * v) == dist2', ok_when='v > 0')
+        if c.get('raised') is None:
+            c.ensure('moves-iff-displacement-nonzero', 'iff(len(trace) == 3, dist2 > 0)')
+    return k
+
+
+for _p in list(DIRS) + ['move_distance']:
+    _mc_move(_p)
+
+
+def _mc_turn(prim, sign):
+    @contract('C17', 'mc.' + prim, [MCC + '.' + prim, MCC + '.start_' + prim, MCC + '.stop', MCC + '._set_vel_setpoint'],
+              clause=CL_MOVE + ' (turns: yaw rate * duration == requested angle, left positive)', float_mode='R')
+    def k(c):
+        self = mc_flying(c)
+        c.float('angle')
+        args = [c.get('angle')] + velocity_arg(c, 'rate', MC_RATE)
+        c.call((self, prim), *args)
+        c.let('sign', sign)
+        check_blocking(c, 'sp == (0.0, 0.0, 0.0, sign * rate) and sp[3] * T == sign * angle', 'T >= 0',
+                       ok_when='rate > 0 and angle >= 0')
+        if c.get('raised') is None:
+            c.ensure('always-commanded', 'len(trace) == 3')
+    return k
+
+
+_mc_turn('turn_left', 1)
+_mc_turn('turn_right', -1)
+
+
+def _mc_circle(prim, sign):
+    @contract('C17', 'mc.' + prim, [MCC + '.' + prim, MCC + '.start_' + prim, MCC + '.stop', MCC + '._set_vel_setpoint'],
+              clause=CL_MOVE + ' (circles: forward velocity v with yaw rate 360*v/(2*pi*r); rate * duration == requested '
+              'angle, v * duration == arc length)', float_mode='R')
+    def k(c):
+        self = mc_flying(c)
+        c.float('r')
+        args = [c.get('r')] + velocity_arg(c)
+        if c.choice('angle_given', [True, False]):
+            if not args[1:]:
+                args.append(MC_VELOCITY)
+            args.append(c.float('angle'))
+        else:
+            c.let('angle', 360.0)
+        c.let('sign', sign), c.let('PI', PI)
+        c.call((self, prim), *args)
+        # with the concrete default velocity the engine folds 360.0 * 0.2 in machine arithmetic (72.0, not the real product
+        # of the two doubles), so the angle identity holds up to that rounding there; it is exact for a symbolic velocity
+        turned = ('sign * sp[3] * T == angle' if c.get('v_given') else
+                  'abs(sign * sp[3] * T - angle) <= 1e-12 * abs(angle)')
+        check_blocking(c, 'sp[0] == v and sp[1] == 0 and sp[2] == 0 and sign * sp[3] * (2 * r * PI) == 360.0 * v and ' + turned,
+                       'T >= 0 and v * T * 360.0 == 2 * r * PI * angle', ok_when='r > 0 and v > 0 and angle >= 0')
+        if c.get('raised') is None:
+            c.ensure('always-commanded', 'len(trace) == 3')
+    return k
+
+
+_mc_circle('circle_left', 1)
+_mc_circle('circle_right', -1)
+
+
+START = {   # primitive -> (argument names, expected set-point)
+    'start_left': (['v'], '(0.0, v, 0.0, 0.0)'), 'start_right': (['v'], '(0.0, -v, 0.0, 0.0)'),
+    'start_forward': (['v'], '(v, 0.0, 0.0, 0.0)'), 'start_back': (['v'], '(-v, 0.0, 0.0, 0.0)'),
+    'start_up': (['v'], '(0.0, 0.0, v, 0.0)'), 'start_down': (['v'], '(0.0, 0.0, -v, 0.0)'),
+    'stop': ([], '(0.0, 0.0, 0.0, 0.0)'),
+    'start_turn_left': (['rate'], '(0.0, 0.0, 0.0, rate)'), 'start_turn_right': (['rate'], '(0.0, 0.0, 0.0, -rate)'),
+    'start_linear_motion': (['vx', 'vy', 'vz', 'yaw'], '(vx, vy, vz, yaw)'),
+}
+
+
+@contract('C17', 'mc.start', [MCC + '.' + p for p in START] + [MCC + '._set_vel_setpoint'],
+          clause='non-blocking primitives post exactly one velocity set-point in the documented direction to the set-point '
+          'thread and keep the commander flying with the same thread (induction step of: ' + CL_END + ')', float_mode='R')
+def mc_start(c):
+    self = mc_flying(c)
+    prim = c.choice('prim', sorted(START))
+    names, expect = START[prim]
+    args = []
+    if names == ['v']:
+        args = velocity_arg(c)
+    elif names == ['rate']:
+        args = velocity_arg(c, 'rate', MC_RATE)
+    else:
+        args = [c.float(n) for n in names]
+        if prim == 'start_linear_motion' and not c.choice('yaw_given', [True, False]):
+            args = args[:3]
+            c.let('yaw', 0.0)
+    c.call((self, prim), *args)
+    c.ensure('no-exception', 'raised is None')
+    c.ensure('invariant-preserved', INV)
+    c.ensure('exactly-one-setpoint', "calls() == ('thread.set_vel_setpoint',) and all(len(e[2]) == 0 for e in trace)")
+    if called(c) == (SET,):
+        c.ensure('setpoint', 'trace[0][1] == ' + expect)
+
+
+@contract('C17', 'mc.start_circle', [MCC + '.start_circle_left', MCC + '.start_circle_right', MCC + '._set_vel_setpoint'],
+          clause='circles: forward velocity v with yaw rate 360*v/(2*pi*r), left positive; the commander keeps flying with the '
+          'same thread whether or not the call raises', float_mode='R')
+def mc_start_circle(c):
+    self = mc_flying(c)
+    prim = c.choice('prim', ['start_circle_left', 'start_circle_right'])
+    c.let('sign', 1 if prim == 'start_circle_left' else -1), c.let('PI', PI)
+    c.float('r')
+    c.call((self, prim), c.get('r'), *velocity_arg(c))
+    c.ensure('no-exception-when-valid', 'implies(r != 0, raised is None)')
+    c.ensure('invariant-preserved', INV)
+    if c.get('raised') is None:
+        c.ensure('exactly-one-setpoint', "calls() == ('thread.set_vel_setpoint',) and all(len(e[2]) == 0 for e in trace)")
+        if called(c) == (SET,):
+            c.snapshot('sp', 'trace[0][1]')
+            c.ensure('setpoint', 'len(sp) == 4 and sp[0] == v and sp[1] == 0 and sp[2] == 0 and sign * sp[3] * (2 * r * PI) == 360.0 * v')
+    else:
+        c.ensure('nothing-sent-when-raising', 'calls() == ()')
+
+
+@contract('C17', 'mc.on_ground', [MCC + '.' + p for p in ('forward', 'turn_left', 'circle_left', 'start_up', 'stop', 'land', '__exit__')]
+          + [MCC + '._set_vel_setpoint'],
+          clause='on the ground (before take-off / after landing) no primitive streams anything: the motion primitives raise and '
+          'land/__exit__ do nothing', float_mode='R')
+def mc_on_ground(c):
+    c.virtual_time()
+    cf = c.ext('cf', returns={'is_connected': True})
+    self = c.new(MCC, cf)
+    c.let('self', self)
+    c.reset_trace()
+    prim = c.choice('prim', ['forward', 'turn_left', 'circle_left', 'start_up', 'stop', 'land', '__exit__'])
+    args = {'forward': [c.float('d')], 'turn_left': [c.get('d')], 'circle_left': [c.get('d')], '__exit__': [None, None, None]}.get(prim, [])
+    c.call((self, prim), *args)
+    c.let('lands', prim in ('land', '__exit__'))
+    c.ensure('nothing-sent', 'all(n == "time.sleep" for n in calls()) and len(calls("cf.")) == 0')
+    c.ensure('still-on-ground', 'self._is_flying is False and self._thread is None')
+    c.ensure('motion-refused', "iff(raised is None, lands or (d == 0 and %r))" % (prim == 'forward'))
+    c.ensure('declared-error', "raised in (None, 'Exception') or (raised == 'ZeroDivisionError' and d == 0 and %r)" % (prim == 'circle_left'))
+
+
+def _mc_land(via):
+    @contract('C17', 'mc.land' + ('' if via == 'land' else '.' + via), [MCC + '.land', MCC + '.__exit__', MCC + '.down', MCC + '.move_distance'],
+              clause=CL_END + ' [MotionCommander, from any flying state satisfying the invariant, ' + via + ']', float_mode='R')
+    def k(c):
+        self = mc_flying(c)
+        if via == 'land':
+            args = velocity_arg(c)
+        else:
+            c.let('v', MC_VELOCITY)
+            args = [None, None, None] if via == 'exit' else [c.ext('exc_type'), c.ext('exc_value'), c.ext('exc_tb')]
+        c.require('v > 0')
+        c.call((self, 'land' if via == 'land' else '__exit__'), *args)
+        c.ensure('no-exception', 'raised is None')
+        END = "('thread.stop', 'cf.commander.send_stop_setpoint', 'cf.commander.send_notify_setpoint_stop')"
+        c.ensure('ends-with-thread-stopped-then-stop-then-priority-release', 'calls()[-3:] == ' + END)
+        c.ensure('stop-commands-without-arguments', 'all(len(e[1]) == 0 and len(e[2]) == 0 for e in trace[-3:])')
+        c.ensure('descent-before', "calls()[:-3] in (('thread.get_height',), ('thread.get_height', 'thread.set_vel_setpoint', 'time.sleep', 'thread.set_vel_setpoint'))")
+        c.ensure('descends-iff-above-or-below-ground', 'iff(len(trace) == 7, h != 0)')
+        if called(c)[:4] == ('thread.get_height', SET, 'time.sleep', SET):
+            c.snapshot('sp', 'trace[1][1]')
+            c.snapshot('T', 'trace[2][1][0]')
+            c.ensure('descent-setpoint', 'len(sp) == 4 and sp[0] == 0 and sp[1] == 0 and sp[3] == 0 and sp[2] * T == -h and len(trace[2][1]) == 1')
+            c.ensure('descent-duration', 'T >= 0 and T * v == (h if h >= 0 else -h)')
+            c.ensure('descent-ends-hovering', 'trace[3][1] == (0.0, 0.0, 0.0, 0.0)')
+        c.ensure('on-ground-afterwards', 'self._is_flying is False and self._thread is None')
+        if via != 'land':
+            c.ensure('exception-not-swallowed', 'not result')
+        # afterwards: landing again and any motion primitive stream nothing
+        c.snapshot('n0', 'len(trace)')
+        c.call((self, 'land'))
+        c.ensure('second-land-sends-nothing', 'raised is None and len(trace) == n0')
+        c.call((self, 'start_forward'))
+        c.ensure('no-setpoints-afterwards', "raised == 'Exception' and len(trace) == n0")
+    return k
+
+
+for _v in ('land', 'exit', 'exit_exc'):
+    _mc_land(_v)
+
+
+@contract('C17', 'mc.take_off', [MCC + '.take_off', MCC + '.__enter__', MCC + '.up', MCC + '.move_distance', MCC + '._reset_position_estimator',
+                                 SPT + '.__init__', SPT + '.set_vel_setpoint'],
+          clause='take-off starts exactly one set-point thread for this Crazyflie and climbs: vertical velocity * duration == '
+          'requested height; refused (nothing started or sent) when already flying or not connected', float_mode='R')
+def mc_take_off(c):
+    c.virtual_time()
+    connected = c.bool('connected')
+    cf = c.ext('cf', returns={'is_connected': connected})
+    c.float('dh')
+    self = c.new(MCC, cf, c.get('dh'))
+    c.let('self', self)
+    was_flying = c.choice('was_flying', [False, True])
+    if was_flying:
+        old = c.ext('thread')
+        c.set(self, '_is_flying', True)
+        c.set(self, '_thread', old)
+    c.reset_trace()
+    via = c.choice('via', ['take_off', 'take_off_height', '__enter__'])
+    if via == 'take_off_height':
+        args = [c.float('ht')] + velocity_arg(c)
+    else:
+        args = []
+        c.let('ht', c.get('dh')), c.let('v', MC_VELOCITY)
+    c.call((self, '__enter__' if via == '__enter__' else 'take_off'), *args)
+    c.let('was_flying', was_flying)
+    c.ensure('refused-iff-flying-or-not-connected', "iff(raised == 'Exception', was_flying or not connected)")
+    c.ensure('no-exception-when-valid', "implies(not was_flying and connected and v > 0, raised is None)")
+    c.ensure('declared-errors-only', "raised in (None, 'Exception') or (raised in ('ZeroDivisionError', 'ValueError') and not v > 0)")
+    c.ensure('nothing-sent-to-the-commander', "len(calls('cf.commander')) == 0")
+    if was_flying:
+        c.ensure('refused', "calls() == () and self._is_flying is True and is_same(self._thread, thread)")
+        return
+    if c.get('raised') == 'Exception':
+        c.ensure('refused-not-connected', "calls() == ('cf.is_connected',) and self._is_flying is False and self._thread is None")
+        return
+    c.snapshot('t', 'self._thread')
+    c.ensure('flying-with-a-setpoint-thread', "self._is_flying is True and typename(t) == '_SetPointThread' and is_same(t._cf, cf) and t.update_period == 0.2")
+    c.ensure('estimator-reset-then-thread-started-once',
+             "calls()[:6] == ('cf.is_connected', 'cf.param.set_value', 'time.sleep', 'cf.param.set_value', 'time.sleep', 'thread:_SetPointThread.start') "
+             "and len(sent('thread:_SetPointThread.start')) == 1 and all(is_same(e[1][0], t) for e in sent('thread:_SetPointThread.start'))")
+    c.ensure('estimator-reset-values', "tuple(e[1] for e in sent('cf.param.set_value')) == (('kalman.resetEstimation', '1'), ('kalman.resetEstimation', '0'))")
+    if c.get('t') is None:
+        return
+    c.snapshot('q', 'tuple(t._queue.queue)')
+    c.snapshot('sleeps', "sent('time.sleep')[2:]")
+    if c.get('raised') is None:
+        c.ensure('climb-commanded-iff-height-nonzero', 'iff(ht != 0, len(q) == 2) and iff(ht == 0, len(q) == 0) and len(sleeps) == len(q) // 2')
+        if via == '__enter__':
+            c.ensure('enter-returns-self', 'is_same(result, self)')
+        if len(c.get('q')) == 2 and len(c.get('sleeps')) == 1:
+            c.snapshot('T', 'sleeps[0][1][0]')
+            c.ensure('climb-setpoint', 'len(q[0]) == 4 and q[0][0] == 0 and q[0][1] == 0 and q[0][3] == 0 and q[0][2] * T == ht')
+            c.ensure('climb-duration', 'T >= 0 and T * v == (ht if ht >= 0 else -ht)')
+            c.ensure('then-hover', 'q[1] == (0.0, 0.0, 0.0, 0.0)')
+
+
+# =========================================================================== _SetPointThread
+
+def spt(c, clock=None):
+    c.virtual_time(clock)
+    cf = c.ext('cf')
+    t = c.new(SPT, cf)
+    c.let('t', t)
+    c.reset_trace()
+    return t
+
+
+@contract('C17', 'thread.api', [SPT + '.__init__', SPT + '.set_vel_setpoint', SPT + '.stop', SPT + '.get_height'],
+          clause='contract of the set-point thread used by the MotionCommander contracts: set_vel_setpoint queues exactly that '
+          'set-point, stop queues the terminate event and joins the thread, get_height is the height of the last hover set-point',
+          float_mode='R')
+def thread_api(c):
+    t = spt(c)
+    c.ensure('initial-state', 'tuple(t._queue.queue) == () and t.get_height() == 0.0 and t.update_period == 0.2')
+    sp = [c.float(n) for n in ('vx', 'vy', 'vz', 'yaw')]
+    c.call((t, 'set_vel_setpoint'), *sp)
+    c.ensure('set-no-exception', 'raised is None')
+    c.ensure('setpoint-queued', 'tuple(t._queue.queue) == ((vx, vy, vz, yaw),)')
+    c.ensure('nothing-sent-by-caller', "len(calls('cf.')) == 0 and len(calls('thread:')) == 0")
+    c.call((t, 'get_height'))
+    c.ensure('height-is-last-hover-height', 'raised is None and result == t._hover_setpoint[3]')
+    c.call((t, 'stop'))
+    c.ensure('stop-no-exception', 'raised is None')
+    c.ensure('terminate-queued-last', "tuple(t._queue.queue) == ((vx, vy, vz, yaw), 'terminate')")
+    c.ensure('joined-after-terminate', "calls('thread:') == ('thread:_SetPointThread.join',) and all(is_same(e[1][0], t) for e in sent('thread:_SetPointThread.join')) and len(calls('cf.')) == 0")
+
+
+def _thread_run_events(n):
+    @contract('C17', 'thread.run.events%d' % n, [SPT + '.run', SPT + '._new_setpoint', SPT + '._update_z_in_setpoint', SPT + '._current_z', SPT + '.get_height'],
+              clause=CL_HOVER + ' - one hover set-point per queued velocity set-point carrying its vx, vy, yaw rate and the height '
+              'base + vertical velocity * elapsed time; run() returns at the terminate event and sends nothing after it',
+              float_mode='R', bounded='%d queued set-points before the terminate event (1 and 2 enumerated); further events after terminate' % n)
+    def k(c):
+        clk = c.floats('clk', 3 * n)
+        t = spt(c, clk)
+        ev = [[c.float('%s%d' % (a, i)) for a in ('vx', 'vy', 'vz', 'yaw')] for i in range(n)]
+        for e in ev:
+            c.call((t, 'set_vel_setpoint'), *e)
+        c.call((t, 'stop'))
+        c.call((t, 'set_vel_setpoint'), 1.0, 1.0, 1.0, 1.0)        # posted after the terminate event: must never be streamed
+        c.reset_trace()
+        c.call((t, 'run'))
+        c.ensure('returns-at-terminate', 'raised is None and result is None')
+        c.snapshot('hov', "sent('cf.commander.send_hover_setpoint')")
+        c.ensure('one-hover-setpoint-per-event-none-after-terminate', "len(hov) == %d and calls('cf.') == ('cf.commander.send_hover_setpoint',) * %d" % (n, n))
+        c.ensure('later-events-left-unread', 'tuple(t._queue.queue) == ((1.0, 1.0, 1.0, 1.0),)')
+        # heights: z_k sent at clock reading c3 of event k; base b_k taken at reading c1, base time at reading c2
+        c.let('b', 0.0), c.let('zv', 0.0), c.let('bt', 0.0)
+        for i in range(n if len(c.get('hov')) == n else 0):
+            c.let('i', i)
+            c.snapshot('b', 'b + zv * (clk[3 * i] - bt)')
+            c.snapshot('zv', 'vz%d' % i)
+            c.snapshot('bt', 'clk[3 * i + 1]')
+            c.snapshot('z', 'b + zv * (clk[3 * i + 2] - bt)')
+            c.ensure('hover%d-velocity-and-yawrate' % i, 'len(hov[i][1]) == 4 and len(hov[i][2]) == 0 and hov[i][1][:3] == (vx%d, vy%d, yaw%d)' % (i, i, i))
+            c.ensure('hover%d-height-integrates-vertical-velocity' % i, 'hov[i][1][3] == z')
+            if i > 0:
+                c.ensure('height-continuity%d' % i, 'implies(clk[3 * i] == clk[3 * i + 1], b == hov[i - 1][1][3] + vz%d * (clk[3 * i + 1] - clk[3 * i - 1]))' % (i - 1))
+        if len(c.get('hov')) == n:
+            c.ensure('reported-height', 't.get_height() == z')
+    return k
+
+
+_thread_run_events(1)
+_thread_run_events(2)
+
+
+@contract('C17', 'thread.run.ticks', [SPT + '.run', SPT + '._new_setpoint', SPT + '._update_z_in_setpoint', SPT + '._current_z'],
+          clause=CL_HOVER + ' - with no new command every iteration of run() waits at most the update period (Queue.get with '
+          'timeout=update_period) and then repeats the hover set-point with the height advanced by vertical velocity * elapsed time',
+          float_mode='R', bounded='one velocity set-point followed by two idle periods (loop left by a scripted stub exception)')
+def thread_run_ticks(c):
+    clk = c.floats('clk', 5)
+    c.virtual_time(clk)
+    n = {'k': 0}
+    stop = c.raiser('StopLoop')
+
+    def hover(*_a):
+        n['k'] += 1
+        if n['k'] == 3:
+            stop()
+    cf = c.ext('cf', returns={'commander.send_hover_setpoint': hover})
+    period = c.float('period')
+    c.require('period > 0')
+    t = c.new(SPT, cf, c.get('period'))
+    c.let('t', t)
+    # the queue is scripted: one velocity set-point, then nothing (queue.Empty after the timeout) for ever
+    items = [tuple(c.float(a) for a in ('vx', 'vy', 'vz', 'yaw'))]
+    empty = c.raiser('queue.Empty')
+
+    def get(*_a):
+        if items:
+            return items.pop(0)
+        empty()
+    c.set(t, '_queue', c.ext('q', returns={'get': get}))
+    c.reset_trace()
+    c.call((t, 'run'))
+    c.ensure('left-by-scripted-stop-only', "raised == 'StopLoop'")
+    c.ensure('get-then-one-hover-setpoint-each-period', "tuple(x for x in calls() if x != 'time.time') == ('q.get', 'cf.commander.send_hover_setpoint') * 3")
+    c.snapshot('hov', "sent('cf.commander.send_hover_setpoint')")
+    c.snapshot('bt', 'clk[1]')
+    c.ensure('hover-setpoints', 'all(len(e[1]) == 4 and len(e[2]) == 0 and e[1][:3] == (vx, vy, yaw) for e in hov)')
+    if len(c.get('hov')) == 3:
+        c.ensure('heights-integrate-vertical-velocity',
+                 'hov[0][1][3] == vz * (clk[2] - bt) and hov[1][1][3] == vz * (clk[3] - bt) and hov[2][1][3] == vz * (clk[4] - bt)')
+    c.ensure('waits-at-most-update-period', "all(e[2]['block'] is True and e[2]['timeout'] == period and len(e[1]) == 0 for e in sent('q.get'))")
+
+
+# =========================================================================== MotionCommander + real _SetPointThread
+
+@contract('C17', 'mc.session', [MCC + '.__enter__', MCC + '.take_off', MCC + '.__exit__', MCC + '.land', SPT + '.stop', SPT + '.set_vel_setpoint',
+                                SPT + '.get_height'] + [MCC + '.' + p for p in ('forward', 'start_up', 'turn_left', 'stop')],
+          clause=CL_END + ' [MotionCommander with its real set-point thread object: __enter__, a bounded program, __exit__]', float_mode='R',
+          bounded='programs of 0..2 primitives drawn from forward/start_up/turn_left/stop, optionally ending in an exception')
+def mc_session(c):
+    c.virtual_time()
+    cf = c.ext('cf', returns={'is_connected': True})
+    self = c.new(MCC, cf)
+    c.let('self', self)
+    c.call((self, '__enter__'))
+    c.require('raised is None')
+    t = c.getfield(self, '_thread')
+    c.let('t', t)
+    c.float('h')
+    c.set(t, '_hover_setpoint', [0.0, 0.0, 0.0, c.get('h')])      # the thread has streamed up to some height
+    n = c.choice('n', [0, 1, 2])
+    failed = False
+    for i in range(n):
+        p = c.choice('p%d' % i, ['forward', 'start_up', 'turn_left', 'stop'])
+        a = [c.float('a%d' % i)] if p != 'stop' else []
+        c.call((self, p), *a)
+        if c.get('raised') is not None:       # the with statement leaves the body at the first exception
+            failed = True
+            break
+    c.snapshot('n0', 'len(tuple(t._queue.queue))')
+    c.reset_trace()
+    c.call((self, '__exit__'), *([c.ext('exc_type'), c.ext('exc_value'), c.ext('exc_tb')] if failed else [None, None, None]))
+    c.ensure('no-exception', 'raised is None')
+    c.ensure('thread-terminated-and-joined-then-stop-then-priority-release',
+             "tuple(x for x in calls() if x != 'time.sleep') == ('thread:_SetPointThread.join', 'cf.commander.send_stop_setpoint', 'cf.commander.send_notify_setpoint_stop')")
+    c.ensure('joined-own-thread', "all(is_same(e[1][0], t) for e in sent('thread:_SetPointThread.join'))")
+    c.ensure('terminate-is-the-last-event', "tuple(t._queue.queue)[-1:] == ('terminate',) and all(e != 'terminate' for e in tuple(t._queue.queue)[:-1])")
+    c.ensure('descent-queued-iff-height-nonzero', 'len(tuple(t._queue.queue)) == n0 + (3 if h != 0 else 1)')
+    c.ensure('on-ground-afterwards', 'self._is_flying is False and self._thread is None')
+
+
+@contract('C17', 'mc.flight', [MCC + '.__enter__', MCC + '.take_off', MCC + '.__exit__', MCC + '.land', MCC + '.forward', MCC + '.start_up',
+                               SPT + '.run', SPT + '.stop', SPT + '.set_vel_setpoint', SPT + '.get_height', SPT + '._new_setpoint'],
+          clause=CL_END + ' [one virtual-time interleaving with the real thread body: the set-point thread runs (a) after take-off until it '
+          'has read the two take-off set-points and (b) otherwise only when the commander blocks in join(); every hover set-point '
+          'precedes the stop command]', float_mode='R',
+          bounded='one interleaving; programs of 0..1 primitives drawn from forward/start_up, optionally ending in an exception')
+def mc_flight(c):
+    c.virtual_time()
+    n = {'k': 0}
+    stop_loop = c.raiser('StopLoop')
+
+    def hover(*_a):
+        n['k'] += 1
+        if n['k'] == 2:
+            stop_loop()         # scheduler: the thread is descheduled right after streaming the second set-point
+    cf = c.ext('cf', returns={'is_connected': True, 'commander.send_hover_setpoint': hover})
+    self = c.new(MCC, cf)
+    c.let('self', self)
+    c.call((self, '__enter__'))
+    c.require('raised is None')
+    t = c.getfield(self, '_thread')
+    c.let('t', t)
+    # Thread.join modelled by its contract "returns after run() has returned": run the real thread body to completion there
+    c.set(t, 'join', c.ext('join', returns={'()': lambda *_a: c.invoke((t, 'run'))}))
+    c.call((t, 'run'))
+    c.require("raised == 'StopLoop'")
+    c.snapshot('h', 't.get_height()')
+    failed = False
+    if c.choice('n', [0, 1]):
+        p = c.choice('p', ['forward', 'start_up'])
+        c.call((self, p), c.float('a'))
+        failed = c.get('raised') is not None
+    c.let('queued', len(tuple(c.getfield(c.getfield(t, '_queue'), 'queue'))))
+    c.reset_trace()
+    c.call((self, '__exit__'), *([c.ext('exc_type'), c.ext('exc_value'), c.ext('exc_tb')] if failed else [None, None, None]))
+    c.ensure('no-exception', 'raised is None')
+    c.snapshot('cmd', "calls('cf.commander')")
+    c.ensure('every-hover-setpoint-precedes-stop-then-priority-release-last',
+             "cmd[-2:] == ('cf.commander.send_stop_setpoint', 'cf.commander.send_notify_setpoint_stop') and "
+             "all(x == 'cf.commander.send_hover_setpoint' for x in cmd[:-2])")
+    c.ensure('queued-setpoints-all-streamed-before-stop', 'len(cmd) - 2 == queued + (2 if h != 0 else 0)')
+    c.ensure('thread-body-finished-in-join', "len(sent('join')) == 1 and tuple(t._queue.queue) == ()")
+    c.ensure('on-ground-afterwards', 'self._is_flying is False and self._thread is None')
+
+
+# =========================================================================== PositionHlCommander
+
+def phlc(c, flying=True, clock=None):
+    """a PositionHlCommander from its real constructor at an arbitrary position with arbitrary defaults"""
+    c.virtual_time(clock)
+    connected = c.bool('connected') if not flying else True
+    cf = c.ext('cf', returns={'is_connected': connected})
+    for n in ('x0', 'y0', 'z0', 'dv', 'dh', 'lh'):
+        c.float(n)
+    self = c.new(PHC, cf, c.get('x0'), c.get('y0'), c.get('z0'), c.get('dv'), c.get('dh'), None, c.get('lh'))
+    c.let('self', self)
+    if flying:
+        c.set(self, '_is_flying', True)
+    c.reset_trace()
+    return self
+
+
+def opt_arg(c, name, default_name):
+    """optional argument: explicit symbolic value, or left out / None (then the commander's default applies)"""
+    how = c.choice(name + '_how', ['given', 'none'])
+    if how == 'given':
+        c.float(name + '_arg')
+        c.snapshot(name, name + '_arg')
+        return c.get(name + '_arg')
+    c.snapshot(name, default_name)
+    return None
+
+
+GOTO = 'cf.high_level_commander.go_to'
+
+
+def check_go_to(c, target):
+    """shared post-conditions of everything that moves the PositionHlCommander: target = (tx, ty, tz) expressions"""
+    c.snapshot('tgt', target)
+    c.snapshot('dist2', '(tgt[0] - x0) * (tgt[0] - x0) + (tgt[1] - y0) * (tgt[1] - y0) + (tgt[2] - z0) * (tgt[2] - z0)')
+    c.ensure('no-exception-when-valid', 'implies(v > 0, raised is None)')
+    if c.get('raised') is None:
+        c.ensure('position-is-start-plus-displacement', 'self.get_position() == tgt')
+        c.ensure('go-to-then-sleep-or-nothing', "calls() in ((), ('%s', 'time.sleep'))" % GOTO)
+        c.ensure('go-to-iff-distance-positive', 'iff(len(trace) == 2, dist2 > 0)')
+        if called(c) == (GOTO, 'time.sleep'):
+            c.snapshot('g', 'trace[0][1]')
+            c.ensure('go-to-targets-position-absolute-yaw0', 'len(g) == 5 and g[:3] == tgt and g[3] == 0 and len(trace[0][2]) == 0')
+            c.ensure('duration-is-distance-over-velocity', 'g[4] >= 0 and (g[4] * v) * (g[4] * v) == dist2')
+            c.ensure('sleeps-for-the-duration', 'trace[1][1] == (g[4],)')
+    else:
+        c.ensure('position-unchanged-when-raising', 'self.get_position() == (x0, y0, z0)')
+        c.ensure('declared-errors-only', "raised in ('ZeroDivisionError', 'ValueError')")
+
+
+@contract('C17', 'phlc.go_to', [PHC + '.go_to', PHC + '.get_position', PHC + '._height', PHC + '._velocity'], clause=CL_POS, float_mode='R')
 def phlc_go_to(c):
     self = phlc(c)
-    for n in ('x', 'y', 'z', 'v'):
+    c.float('x'), c.float('y')
+    if c.choice('z_positional', [True, False]):
+        z = opt_arg(c, 'z', 'dh')
+        vel = opt_arg(c, 'v', 'dv')
+        c.call((self, 'go_to'), c.get('x'), c.get('y'), z, vel)
+    else:
+        c.snapshot('z', 'dh'), c.snapshot('v', 'dv')
+        c.call((self, 'go_to'), c.get('x'), c.get('y'))
+    check_go_to(c, '(x, y, z)')
+
+
+def _phlc_move(prim):
+    @contract('C17', 'phlc.' + prim, [PHC + '.' + prim, PHC + '.move_distance', PHC + '.go_to', PHC + '.get_position'], clause=CL_POS, float_mode='R')
+    def k(c):
+        self = phlc(c)
+        if prim == 'move_distance':
+            args = [c.float('dx'), c.float('dy'), c.float('dz')]
+        else:
+            d = c.float('d')
+            sx, sy, sz = DIRS[prim]
+            c.let('sx', sx), c.let('sy', sy), c.let('sz', sz)
+            c.snapshot('dx', 'sx * d'), c.snapshot('dy', 'sy * d'), c.snapshot('dz', 'sz * d')
+            args = [d]
+        if c.choice('v_positional', [True, False]):
+            args.append(opt_arg(c, 'v', 'dv'))
+        else:
+            c.snapshot('v', 'dv')
+        c.call((self, prim), *args)
+        check_go_to(c, '(x0 + dx, y0 + dy, z0 + dz)')
+    return k
+
+
+for _p in list(DIRS) + ['move_distance']:
+    _phlc_move(_p)
+
+
+@contract('C17', 'phlc.defaults', [PHC + '.set_default_velocity', PHC + '.set_default_height', PHC + '.set_landing_height', PHC + '.go_to', PHC + '.land'],
+          clause=CL_POS + ' - default changes: the new defaults apply to the following commands and change nothing else', float_mode='R')
+def phlc_defaults(c):
+    self = phlc(c)
+    for n in ('ndv', 'ndh', 'nlh'):
         c.float(n)
+    which = c.choice('which', ['set_default_velocity', 'set_default_height', 'set_landing_height'])
+    c.call((self, which), c.get({'set_default_velocity': 'ndv', 'set_default_height': 'ndh', 'set_landing_height': 'nlh'}[which]))
+    c.ensure('setter-sends-nothing', 'raised is None and calls() == () and self.get_position() == (x0, y0, z0) and self._is_flying is True')
+    c.snapshot('v', 'ndv' if which == 'set_default_velocity' else 'dv')
+    c.snapshot('z', 'ndh' if which == 'set_default_height' else 'dh')
+    c.snapshot('l', 'nlh' if which == 'set_landing_height' else 'lh')
+    c.float('x'), c.float('y')
+    c.call((self, 'go_to'), c.get('x'), c.get('y'))
+    check_go_to(c, '(x, y, z)')
+    if c.get('raised') is None:
+        c.reset_trace()
+        c.require('z >= l and v > 0')
+        c.call((self, 'land'))
+        c.ensure('lands-on-new-landing-height', "raised is None and calls('cf.') == ('cf.high_level_commander.land', 'cf.high_level_commander.stop') "
+                 "and all(e[1][:1] == (l,) for e in sent('cf.high_level_commander.land')) and self.get_position() == (x, y, l)")
+
+
+@contract('C17', 'phlc.take_off', [PHC + '.take_off', PHC + '.__enter__', PHC + '.__init__', PHC + '._height', PHC + '._velocity'],
+          clause='take-off climbs to the requested (or default) height with duration height/velocity and the reported position '
+          'becomes (x, y, height); refused with nothing sent when already flying or not connected', float_mode='R')
+def phlc_take_off(c):
+    clk = c.floats('clk', 2)
+    self = phlc(c, flying=False, clock=clk)
+    was_flying = c.choice('was_flying', [False, True])
+    if was_flying:
+        c.set(self, '_is_flying', True)
+    c.let('was_flying', was_flying)
+    via = c.choice('via', ['take_off', '__enter__'])
+    if via == 'take_off':
+        ht = opt_arg(c, 'ht', 'dh')
+        vel = opt_arg(c, 'v', 'dv')
+        c.call((self, 'take_off'), ht, vel)
+    else:
+        c.snapshot('ht', 'dh'), c.snapshot('v', 'dv')
+        c.call((self, '__enter__'))
+    HL = "calls('cf.high_level_commander')"
+    c.ensure('refused-iff-flying-or-not-connected', "iff(raised == 'Exception', was_flying or not connected)")
+    c.ensure('no-exception-when-valid', 'implies(not was_flying and connected and v > 0 and ht >= 0, raised is None)')
+    if c.get('raised') == 'Exception':
+        c.ensure('nothing-sent-when-refused', HL + " == () and len(sent('time.sleep')) == 0 and self.get_position() == (x0, y0, z0) and self._is_flying is was_flying")
+    elif c.get('raised') is None:
+        c.ensure('one-takeoff-command', HL + " == ('cf.high_level_commander.takeoff',) and calls('cf.') == ('cf.is_connected', 'cf.high_level_commander.takeoff')")
+        if called(c)[-2:] == ('cf.high_level_commander.takeoff', 'time.sleep'):
+            c.snapshot('g', 'trace[-2]')
+            c.ensure('takeoff-height-and-duration', 'len(g[1]) == 2 and len(g[2]) == 0 and g[1][0] == ht and g[1][1] * v == ht and g[1][1] >= 0')
+            c.ensure('sleeps-for-the-duration', 'trace[-1][1] == (g[1][1],)')
+        c.ensure('takeoff-then-sleep-last', "calls()[-2:] == ('cf.high_level_commander.takeoff', 'time.sleep')")
+        c.ensure('holds-back-one-second-after-construction', "iff(len(sent('time.sleep')) == 2, clk[0] + 1.0 - clk[1] > 0) and len(sent('time.sleep')) in (1, 2) "
+                 "and implies(len(sent('time.sleep')) == 2, sent('time.sleep')[0][1] == (clk[0] + 1.0 - clk[1],))")
+        c.ensure('position-and-state', 'self.get_position() == (x0, y0, ht) and self._is_flying is True')
+        if via == '__enter__':
+            c.ensure('enter-returns-self', 'is_same(result, self)')
+    else:
+        c.ensure('declared-errors-only', "raised in ('ZeroDivisionError', 'ValueError')")
+
+
+@contract('C17', 'phlc.land', [PHC + '.land', PHC + '.__exit__', PHC + '._landing_height', PHC + '._velocity', PHC + '.get_position'],
+          clause=CL_END + ' [PositionHlCommander, from any flying state; land, __exit__ without and with a pending exception]', float_mode='R')
+def phlc_land(c):
+    self = phlc(c)
+    via = c.choice('via', ['land', 'land_args', 'exit', 'exit_exc'])
+    if via == 'land_args':
+        args = [opt_arg(c, 'v', 'dv'), opt_arg(c, 'l', 'lh')]
+    else:
+        c.snapshot('v', 'dv'), c.snapshot('l', 'lh')
+        args = {'land': [], 'exit': [None, None, None]}.get(via) if via != 'exit_exc' else [c.ext('exc_type'), c.ext('exc_value'), c.ext('exc_tb')]
     c.require('v > 0')
-    c.call((self, 'go_to'), c.get('x'), c.get('y'), c.get('z'), c.get('v'))
+    c.call((self, 'land' if via.startswith('land') else '__exit__'), *args)
+    # KNOWN FINDING (kept visible): fails for z0 < l - negative duration, time.sleep raises ValueError before hl.stop()
     c.ensure('no-exception', 'raised is None')
-    c.ensure('position', 'self.get_position() == (x, y, z)')
-    c.ensure('trace-names', "implies((x, y, z) != (x0, y0, z0), calls() == ('cf.high_level_commander.go_to', 'time.sleep'))")
+    c.ensure('no-exception-at-or-above-landing-height', 'implies(z0 >= l, raised is None)')
+    if c.get('raised') is None:
+        c.ensure('land-sleep-stop-and-nothing-else', "calls() == ('cf.high_level_commander.land', 'time.sleep', 'cf.high_level_commander.stop')")
+        if called(c) == ('cf.high_level_commander.land', 'time.sleep', 'cf.high_level_commander.stop'):
+            c.snapshot('g', 'trace[0][1]')
+            c.ensure('land-height-and-duration', 'len(g) == 2 and len(trace[0][2]) == 0 and g[0] == l and g[1] * v == z0 - l')
+            c.ensure('sleeps-for-the-duration', 'trace[1][1] == (g[1],)')
+            c.ensure('stop-command-plain', 'len(trace[2][1]) == 0 and len(trace[2][2]) == 0')
+        c.ensure('on-ground-at-landing-height', 'self._is_flying is False and self.get_position() == (x0, y0, l)')
+        if via.startswith('exit'):
+            c.ensure('exception-not-swallowed', 'not result')
+        c.snapshot('n0', 'len(trace)')
+        c.call((self, 'land'))
+        c.ensure('second-land-sends-nothing', 'raised is None and len(trace) == n0')
+
+
+PROG = {'forward': (1, 0, 0), 'left': (0, 1, 0), 'down': (0, 0, -1)}
+
+
+@contract('C17', 'phlc.session', [PHC + '.__enter__', PHC + '.take_off', PHC + '.__exit__', PHC + '.land', PHC + '.go_to', PHC + '.move_distance',
+                                  PHC + '.get_position'] + [PHC + '.' + p for p in PROG],
+          clause=CL_POS + '; ' + CL_END + ' [PositionHlCommander: __enter__, a bounded program, __exit__]', float_mode='R',
+          bounded='programs of 0..2 primitives drawn from forward/left/down/go_to with the default velocity')
+def phlc_session(c):
+    self = phlc(c, flying=False)
+    c.require('connected and dv > 0 and dh >= 0')
+    c.call((self, '__enter__'))
+    c.require('raised is None')
+    n = c.choice('n', [0, 1, 2])
+    c.snapshot('px', 'x0'), c.snapshot('py', 'y0'), c.snapshot('pz', 'dh')
+    for i in range(n):
+        p = c.choice('p%d' % i, sorted(PROG) + ['go_to'])
+        if p == 'go_to':
+            a = [c.float('gx%d' % i), c.float('gy%d' % i), c.float('gz%d' % i)]
+            c.snapshot('px', 'gx%d' % i), c.snapshot('py', 'gy%d' % i), c.snapshot('pz', 'gz%d' % i)
+        else:
+            a = [c.float('a%d' % i)]
+            sx, sy, sz = PROG[p]
+            c.let('s', (sx, sy, sz)), c.let('i', i)
+            c.snapshot('px', 'px + s[0] * a%d' % i), c.snapshot('py', 'py + s[1] * a%d' % i), c.snapshot('pz', 'pz + s[2] * a%d' % i)
+        c.call((self, p), *a)
+        c.ensure('step%d-no-exception' % i, 'raised is None')
+        c.ensure('step%d-position-is-start-plus-sum-of-displacements' % i, 'self.get_position() == (px, py, pz)')
+        c.ensure('step%d-last-go-to-targets-reported-position' % i, "implies(len(sent('%s')) > 0, sent('%s')[-1][1][:3] == (px, py, pz))" % (GOTO, GOTO))
+    c.require('pz >= lh')
+    c.reset_trace()
+    c.call((self, '__exit__'), None, None, None)
+    c.ensure('no-exception', 'raised is None')
+    c.ensure('ends-with-land-sleep-stop', "calls() == ('cf.high_level_commander.land', 'time.sleep', 'cf.high_level_commander.stop')")
+    if called(c)[:2] == ('cf.high_level_commander.land', 'time.sleep'):
+        c.ensure('landing-from-tracked-height', 'len(trace[0][1]) == 2 and trace[0][1][0] == lh and trace[0][1][1] * dv == pz - lh and trace[1][1] == (trace[0][1][1],)')
+    c.ensure('final-position', 'self.get_position() == (px, py, lh) and self._is_flying is False')
